@@ -12,9 +12,18 @@ ASSUMPTIONS = [
     "fed back combinationally to the pad inputs (the DUT has its own 2-FF synchroniser)",
     "the user asserts exactly one of start/stop/write/read for one cycle, only after it has seen busy low in an "
     "earlier cycle (as I2CRegisterInterface does); data_i / ack_i are valid in that cycle",
-    "operation sequences are well-formed I2C messages: START, address byte, then writes (R/W=0) or reads (R/W=1, "
+    "operation sequences are I2C messages: START, address byte, then writes (R/W=0) or reads (R/W=1, "
     "ack_i=1 on all but the last byte, at least one byte), optional repeated START + further segment, STOP; after a target NAK the "
     "user goes straight to repeated START or STOP",
+    "two further sequences in which the initiator itself holds SDA low when START is strobed are generated, because the "
+    "interface allows them (docstring: 'when busy is low, asserting start generates a start or repeated start "
+    "condition', no precondition; the FSM's START-SCL-L/START-SDA-H path exists only to release the initiator's own "
+    "SDA first, and LUNA's test_repeated_start exercises exactly sda_o=0 + start) and the statement quantifies over all "
+    "operation sequences: (a) START directly after START (1-2 extra STARTs before a segment; I2C requires targets to "
+    "re-arm on a START at any position), (b) a read segment whose last byte the user ACKs, followed by repeated START "
+    "or STOP -- a message-format liberty of the *user*; the target then owns SDA for the next byte, so only next bytes "
+    "with MSB=1 (target leaves SDA released) are generated: with MSB=0 no START can appear on the wire whatever the "
+    "initiator does",
     "the target is an autonomous I2C target BFM: it changes SDA only while SCL is low (>= 1 cycle before SCL can "
     "rise), decodes R/W from the address byte it samples at SCL rising edges, may hold SCL low for a generated "
     "number of cycles after any SCL falling edge (only when clk_stretch=True), and reacts to bus edges one cycle "
@@ -84,7 +93,10 @@ def build_ops(case):
     txbytes = []      # bytes the target transmits, in order
     for msg in case["msgs"]:
         for si, seg in enumerate(msg["segs"]):
-            ops.append(dict(kind="start", rep=si > 0))
+            for _ in range(seg.get("xs", 0)):
+                # START directly followed by START: the second one finds the initiator's own SDA drive low
+                ops.append(dict(kind="start", rep=si > 0 or _ > 0, again=True))
+            ops.append(dict(kind="start", rep=si > 0 or seg.get("xs", 0) > 0))
             ab = ((seg["addr"] & 0x7F) << 1) | seg["rw"]
             ops.append(dict(kind="write", data=ab, exp_ack=int(seg["aack"]), address=True))
             acks.append(int(seg["aack"]))
@@ -102,8 +114,13 @@ def build_ops(case):
                         break
                 else:
                     last = bi == nb - 1
-                    ops.append(dict(kind="read", ack_i=0 if last else 1, exp_byte=val & 0xFF))
+                    acked_last = last and bool(seg.get("lastack"))
+                    ops.append(dict(kind="read", ack_i=0 if last and not acked_last else 1, exp_byte=val & 0xFF,
+                                    acked_last=acked_last))
                     txbytes.append(val & 0xFF)
+                    if acked_last and si + 1 < len(msg["segs"]):
+                        # the target starts its next byte at the SCL falling edge of the repeated START: MSB = 1
+                        txbytes.append(0x80 | (seg.get("ab", 0x7F) & 0x7F))
         ops.append(dict(kind="stop"))
     return ops, acks, txbytes
 
@@ -261,7 +278,7 @@ class I2CSub(Sub):
     name = "initiator"
     budget = {"quick": 5000, "thorough": 80000}
     rule = ("1..2 I2C messages (START, address, 0..3 data writes or reads, optional repeated START + second segment, "
-            "STOP) on 13 configurations (period_cyc 4..40, clk_stretch on/off, open-drain or push-pull SCL) against an "
+            "STOP; 1 segment in 3 preceded by 1-2 extra STARTs, 1 read segment in 4 ends with an ACKed byte) on 13 configurations (period_cyc 4..40, clk_stretch on/off, open-drain or push-pull SCL) against an "
             "autonomous target BFM (ACK/NAK choices, read data, SCL held low 0..30 cycles after falling edges, SDA "
             "change delays); oracle = wire-level decoder per operation window (issue .. busy falling): START/STOP "
             "events, 9 SCL pulses per byte, bits MSB first, ack_o/data_o/driven ACK, plus: initiator SDA drive "
@@ -281,6 +298,7 @@ class I2CSub(Sub):
         seg = st.fixed_dictionaries(dict(
             addr=st.integers(0, 127), rw=st.integers(0, 1), aack=weighted([(True, 5), (False, 1)]),
             bytes=st.lists(st.tuples(byte, weighted([(True, 4), (False, 1)])), min_size=0, max_size=3),
+            xs=weighted([(0, 6), (1, 2), (2, 1)]), lastack=weighted([(False, 3), (True, 1)]), ab=st.integers(0, 127),
         ))
         msg = st.fixed_dictionaries(dict(segs=st.lists(seg, min_size=1, max_size=2)))
         return st.fixed_dictionaries(dict(
@@ -409,6 +427,11 @@ class I2CSub(Sub):
             labels.add("stretch-visible")
         if rep:
             labels.add("repeated-start")
+        if any(o.get("again") for o in ops):
+            labels.add("start-after-start")
+        for k, o in enumerate(ops[:-1]):
+            if o.get("acked_last"):
+                labels.add("acked-read-then-" + ops[k + 1]["kind"])
         if any(o["kind"] == "read" for o in ops):
             labels.add("read")
         if any(o["kind"] == "write" and not o.get("address") for o in ops):
